@@ -153,7 +153,7 @@ func c02RunCLI(c *Ctx, input []byte, cmds []string, limit time.Duration) []c02CL
 			ex.Stdout = io.Discard
 			ex.Stderr = &stderr
 			err := ex.Run()
-			r := c02CLIResult{cmd: cmd, stderr: trunc(stderr.String())}
+			r := c02CLIResult{cmd: cmd, stderr: c02Trunc(stderr.String())}
 			if ctx.Err() != nil {
 				r.timeout = true
 			} else if err != nil {
